@@ -224,6 +224,10 @@ ITEMS = location_types() + budget_types() + error_types() + [
     spec fn rest(&self) -> Seq<Ev<'de>> {
         match self.look { Some(e) => seq![e] + self.pump_future(), None => self.pump_future() }
     }
+    spec fn primed(&self) -> bool { self.look is Some }
+    spec fn use_site_override(&self) -> Option<Location> {
+        if self.inject@.len() > 0 { Some(self.inject@[self.inject@.len() - 1].reference_location) } else { None }
+    }
 ''',
          impl_methods={
              'next': dict(
